@@ -613,6 +613,10 @@ fn spell_steps(rng: &mut Rng, model: &Value, loc: &[Step], fancy: bool) -> Strin
                 }
                 cur = cur.get(*i).unwrap_or(&Value::Null);
             }
+            Step::Big(d) => {
+                s.push_str(&format!("[{}]", d));
+                cur = &Value::Null;
+            }
         }
     }
     s
@@ -654,8 +658,28 @@ fn gen_query(rng: &mut Rng, model: &Value, names: &[String]) -> String {
         _ => 3,
     };
     for round in 0..n_suffix {
-    match if round == 0 { rng.weighted(&[4, 3, 3, 4, 3, 2, 2, 2, 2, 2, 3]) } else { rng.weighted(&[0, 3, 3, 3, 3, 2, 2, 2, 2, 2, 3]) } {
+    match if round == 0 { rng.weighted(&[4, 3, 3, 4, 3, 2, 2, 2, 2, 2, 3, 4]) } else { rng.weighted(&[0, 3, 3, 3, 3, 2, 2, 2, 2, 2, 3, 5]) } {
         0 => {}
+        11 => {
+            // one to three plain child segments (name, index, negative index): after a segment that
+            // selected several nodes each of them applies to every one of those nodes
+            if round == 0 && rng.chance(1, 2) {
+                q.push_str(*rng.pick(&["[*]", ".*", "[0,1]", "[::-1]", "[?@]", "..*"]));
+            }
+            for _ in 0..1 + rng.below(3) {
+                if rng.chance(2, 5) {
+                    let n = some_name(rng);
+                    if gen::shorthand_ok(&n) && rng.chance(1, 2) {
+                        q.push_str(&format!(".{}", n));
+                    } else {
+                        let sel = name_sel(rng, &n);
+                        q.push_str(&format!("[{}]", sel));
+                    }
+                } else {
+                    q.push_str(&format!("[{}]", *rng.pick(&[0i64, -1, 1, -2, 2, -3, 0, -1])));
+                }
+            }
+        }
         10 => {
             // a bracketed selector directly under the descendant operator
             let f = *rng.pick(&["..[?@]", "..[?@>0]", "..[?@.a]", "..[?@[0]]", "..[0]", "..[-1]", "..[1:]", "..[::2]", "..[*]", "..[?count(@.*)>0]", "..[0,1]", "..[?@!=null]"]);
@@ -757,7 +781,27 @@ fn gen_miss(rng: &mut Rng, model: &Value, stats: &mut Stats) -> Loc {
         let mut loc = base.clone();
         let kind: &'static str;
         match v {
-            Value::Array(a) => match rng.below(4) {
+            Value::Array(a) => match rng.below(5) {
+                4 => {
+                    // an index no array can have: beyond 2^53, beyond 2^63, and beyond 2^64 where the
+                    // low 64 (or 32) bits spell an index that exists
+                    let low = if a.is_empty() { 0u128 } else { rng.below(a.len()) as u128 };
+                    let n: u128 = match rng.below(7) {
+                        0 => (1u128 << 64) + low,
+                        1 => (1u128 << 32) + low,
+                        2 => (1u128 << 63) + low,
+                        3 => (1u128 << 53) + low,
+                        4 => (3u128 << 64) + low,
+                        5 => 100_000_000_000_000_000_000_000_000u128 + low,
+                        _ => u64::MAX as u128,
+                    };
+                    let d = n.to_string();
+                    match d.parse::<usize>() {
+                        Ok(i) => loc.push(Step::Idx(i)),
+                        Err(_) => loc.push(Step::Big(d)),
+                    }
+                    kind = "index_huge";
+                }
                 0 => {
                     loc.push(Step::Idx(a.len()));
                     kind = "index_eq_len";
@@ -846,6 +890,30 @@ pub fn gen_doc(rng: &mut Rng) -> Value {
     let big = rng.chance(1, 30);
     let p = if big { DocParams { max_nodes: 40 + rng.below(40), max_depth: 3 + rng.below(7), names: gen::NAMES_ADV, max_width: 10, long_arrays: true, mixed_names: true } } else { DocParams { max_nodes: if wide { 10 + rng.below(12) } else { 6 + rng.below(9) }, max_depth: if wide { 1 + rng.below(2) } else { 1 + rng.below(4) }, names: gen::NAMES_ADV, max_width: if wide { 12 } else { 4 }, long_arrays: true, mixed_names: true } };
     let mut d = gen::gen_doc(rng, &p);
+    // one time in eight: records — siblings of the same shape (the same member names, arrays of
+    // different lengths below them), so that a child segment after a multi-valued one finds something
+    // in several of them
+    if rng.chance(1, 8) {
+        let k1 = rng.pick(gen::NAMES_ADV).to_string();
+        let k2 = rng.pick(&["items", "a", "0", "it's", "k/2"]).to_string();
+        let n = 2 + rng.below(4);
+        let mut recs = vec![];
+        for _ in 0..n {
+            let len = rng.below(5);
+            let inner: Vec<Value> = (0..len).map(|j| if rng.chance(1, 3) { json!([gen::scalar(rng), j]) } else if rng.chance(1, 3) { json!({ k2.clone(): [j, gen::scalar(rng)] }) } else { gen::scalar(rng) }).collect();
+            let rec = match rng.below(3) {
+                0 => json!({ k1.clone(): inner, k2.clone(): { k1.clone(): gen::scalar(rng) } }),
+                1 => Value::Array(vec![Value::Array(inner), gen::scalar(rng)]),
+                _ => json!({ k2.clone(): { k1.clone(): inner } }),
+            };
+            recs.push(rec);
+        }
+        d = match rng.below(3) {
+            0 => Value::Array(recs),
+            1 => json!({ k1.clone(): recs, "d": d }),
+            _ => json!([d, recs]),
+        };
+    }
     // now and then: an array with three-digit indexes
     if rng.chance(1, 120) {
         let n = 101 + rng.below(160);
